@@ -104,14 +104,40 @@ where
 }
 
 /// widening of m (width w) to width w2 > w through the generic ConvertIterator and through convert_to_u64
-fn widen(m: &Moc, w2: u8) -> Result<(u8, Vec<(u64, u64)>, Option<(u8, Vec<(u64, u64)>)>), String> {
+fn widen(m: &Moc, w2: u8) -> Result<(u8, Vec<(u64, u64)>, Option<(u8, Vec<(u64, u64)>)>, Vec<String>), String> {
+  // the LAZILY widened iterator used as an operand: what it announces (peek_last) is the last range it
+  // yields, and combined with the same MOC held in the wider type it gives the MOC / nothing
+  macro_rules! lazy_use {
+    ($mm:ident, $u:ty, $q:ident, $pl:ident, $r:ident, $errs:ident) => {{
+      if let Some(p) = $pl {
+        if $r.last() != Some(&p) {
+          $errs.push(format!("peek_last of the widened iterator {:?} is not its last range {:?}", p, $r.last()));
+        }
+      }
+      let wide: RangeMOC<$u, $q<$u>> = (&$mm).into_range_moc_iter().convert::<$u, $q<$u>>().into_range_moc();
+      let a1 = ranges_of((&$mm).into_range_moc_iter().convert::<$u, $q<$u>>().and((&wide).into_range_moc_iter()));
+      let a2 = ranges_of((&wide).into_range_moc_iter().and((&$mm).into_range_moc_iter().convert::<$u, $q<$u>>()));
+      let m1 = ranges_of((&wide).into_range_moc_iter().minus((&$mm).into_range_moc_iter().convert::<$u, $q<$u>>()));
+      let m2 = ranges_of((&$mm).into_range_moc_iter().convert::<$u, $q<$u>>().minus((&wide).into_range_moc_iter()));
+      if a1 != $r || a2 != $r {
+        $errs.push(format!("(widened lazily) AND (the same MOC in the wide type) = {} / {} instead of the MOC", ranges_str(&a1), ranges_str(&a2)));
+      }
+      if !m1.is_empty() || !m2.is_empty() {
+        $errs.push(format!("(the MOC in the wide type) MINUS (widened lazily) = {} / {} instead of nothing", ranges_str(&m1), ranges_str(&m2)));
+      }
+    }};
+  }
   macro_rules! go {
     ($t:ty, $u:ty, $q:ident) => {{
       let mm: RangeMOC<$t, $q<$t>> = to_range_moc(m);
       catch(move || {
         let it = (&mm).into_range_moc_iter().convert::<$u, $q<$u>>();
         let d = it.depth_max();
-        (d, ranges_of(it), None)
+        let pl = it.peek_last().map(|r| (r.start.to_u64(), r.end.to_u64()));
+        let r = ranges_of(it);
+        let mut errs: Vec<String> = Vec::new();
+        lazy_use!(mm, $u, $q, pl, r, errs);
+        (d, r, None, errs)
       })
     }};
   }
@@ -121,10 +147,13 @@ fn widen(m: &Moc, w2: u8) -> Result<(u8, Vec<(u64, u64)>, Option<(u8, Vec<(u64, 
       catch(move || {
         let it = (&mm).into_range_moc_iter().convert::<u64, $q<u64>>();
         let d = it.depth_max();
+        let pl = it.peek_last().map(|r| (r.start.to_u64(), r.end.to_u64()));
         let r = ranges_of(it);
         let it2 = convert_to_u64::<$t, $q<$t>, _, $q<u64>>((&mm).into_range_moc_iter());
         let d2 = it2.depth_max();
-        (d, r, Some((d2, ranges_of(it2))))
+        let mut errs: Vec<String> = Vec::new();
+        lazy_use!(mm, u64, $q, pl, r, errs);
+        (d, r, Some((d2, ranges_of(it2))), errs)
       })
     }};
   }
@@ -337,7 +366,11 @@ pub fn check_moc(rep: &mut Report, orc: &mut Oracle, m: &Moc) -> bool {
           ok = false;
           bad(&format!("widening to u{} panics", w2), p, a.clone(), "C05_widening_valid", rep);
         }
-        Ok((d, r, extra)) => {
+        Ok((d, r, extra, errs)) => {
+          for e in errs {
+            ok = false;
+            bad(&format!("the iterator widened to u{} cannot be used as an operand", w2), e, a.clone(), "C05_widening_same_set (the widened MOC is the same MOC wherever it is used)", rep);
+          }
           let o = format!("OK {}", ranges_str(&r));
           if o != a || d != m.d {
             ok = false;
